@@ -4,7 +4,7 @@ import json
 from . import core as K
 
 # ---- the standard callable table (cid = index)
-OK, ECHO, FAIL, TWO, OPQ, TBODY, DM_ECHO, DM_RAISE, DM_ATTR, IM, DEEP, KW, FAIL2, PRIV, DM_RET = range(15)
+OK, ECHO, FAIL, TWO, OPQ, TBODY, DM_ECHO, DM_RAISE, DM_ATTR, IM, DEEP, KW, FAIL2, PRIV, DM_RET, FLT, DM_FLT = range(17)
 
 
 def _d(beh, s=None, role=None):
@@ -31,10 +31,12 @@ def std_table():
         _d(["raise", "CustomError", "custom-text"]),            # FAIL2   "fail2"
         _d(["ret", "private!"]),                                # PRIV    reachable only through underscore names
         _d(["ret", None], role="dispatch"),                     # DM_RET   dispatch function returning None
+        _d(["fault", -32050, "user-fault"]),                    # FLT     "flt"   returns a Fault built by user code (default config)
+        _d(["fault", 7, "dm-fault"], role="dispatch"),          # DM_FLT   dispatch function returning a Fault
     ]
 
 
-FUNCS = {"ok": OK, "echo": ECHO, "fail": FAIL, "two": TWO, "opq": OPQ, "kw": KW, "fail2": FAIL2}
+FUNCS = {"ok": OK, "echo": ECHO, "fail": FAIL, "two": TWO, "opq": OPQ, "kw": KW, "fail2": FAIL2, "flt": FLT}
 
 TREE = {
     "im": ["call", IM],
@@ -53,6 +55,7 @@ DISPATCH_KINDS = {
     "custom-returns": dict(dm=DM_ECHO, inst=None),
     "custom-raises": dict(dm=DM_RAISE, inst=None),
     "custom-none": dict(dm=DM_RET, inst=None),
+    "custom-returns-fault": dict(dm=DM_FLT, inst=None),
     "instance-dispatch-returns": dict(dm=None, inst={"dispatch": DM_ECHO, "attrs": TREE}),
     "instance-dispatch-raises": dict(dm=None, inst={"dispatch": DM_RAISE, "attrs": TREE}),
     "instance-dispatch-attrerror": dict(dm=None, inst={"dispatch": DM_ATTR, "attrs": TREE}),
@@ -91,6 +94,7 @@ ENTRY_KINDS = {
     "unknown-method": lambda rid, v2: req("nope", ABSENT, rid, v2),
     "bad-arity": lambda rid, v2: req("two", [1], rid, v2),
     "conversion-fails": lambda rid, v2: req("opq", {}, rid, v2),
+    "fault-returning-call": lambda rid, v2: req("flt", [], rid, v2),
     "echo-kwargs": lambda rid, v2: req("echo", {"a": [1, {"b": None}]}, rid, v2),
     "invalid-non-dict": lambda rid, v2: [5, "x", True, 1.5, None, [], {}][len(repr(rid)) % 7],
     "invalid-dict": lambda rid, v2: req(ABSENT, ABSENT, rid, v2),
